@@ -255,6 +255,18 @@ func HC20_Resources() {
 			for k := 0; k < hNRes; k++ {
 				m.present[k] = false
 			}
+			// a type registered before the Reset is added again through the type-based API:
+			// the ID-based API must see it under the ID handed out before the Reset
+			for _, k := range [3]int{3, 1, 0} {
+				if m.reg[k] {
+					api := 2
+					if k == 1 {
+						api = 1
+					}
+					m.add(k, api)
+					break
+				}
+			}
 		}
 		m.observe()
 	}
